@@ -1326,12 +1326,17 @@ std::ostream& expression_t::print(std::ostream& os, bool old) const
         break;
     }
 
-    case UNARY_MINUS:
-        if (get(0).get_kind() == CONSTANT && get(0).get_type().is_integer() && get(0).get_value() < 0)
-            get(0).print(os << "-(", old) << ')';  // a negative constant (-2147483648): `--` would be read as a decrement
+    case UNARY_MINUS: {
+        // an operand whose text starts with the negative constant -2147483648 (the constant itself, or under a postfix
+        // operator) gets parentheses of its own: `--` would be read as a decrement
+        auto operand = std::ostringstream{};
+        embrace(operand, old, get(0), precedence);
+        if (const auto text = operand.str(); !text.empty() && text.front() == '-')
+            os << "-(" << text << ')';
         else
-            embrace(os << '-', old, get(0), precedence);
+            os << '-' << text;
         break;
+    }
 
     case POST_DECREMENT:
     case POST_INCREMENT: embrace(os, old, get(0), precedence) << (get_kind() == POST_DECREMENT ? "--" : "++"); break;
